@@ -6,6 +6,7 @@ CONSTANTS
   MaxExt = 5
   MaxToggle = 4
   IllMaxStep = 16
+  AvoidErrors = TRUE
   Depth = 16
 INIT Init
 NEXT Next
